@@ -45,12 +45,29 @@ type c05PipeRsv struct {
 	o        *c05RObj
 	ownerApp int // 1 = app=a, 2 = app=b
 	zone     int // label zone=a|b on the reservation
+	expr     int // 0 = matchLabels only; else the owner selector ALSO carries c05TierExpr(expr) (6 = invalid operator: o.ownBad)
+}
+
+func (p *c05PipeRsv) ownerSelector() *metav1.LabelSelector {
+	return &metav1.LabelSelector{MatchLabels: map[string]string{"app": c05Apps[p.ownerApp]}, MatchExpressions: c05TierExpr(p.expr)}
+}
+
+func (p *c05PipeRsv) setExpr(kind int) {
+	p.expr = kind
+	p.o.ownBad = kind == 6
+}
+
+func c05DrawExpr(r *vRand) int {
+	if r.Chance(3, 5) {
+		return 0
+	}
+	return []int{1, 1, 1, 2, 2, 3, 4, 4, 5, 6}[r.Intn(10)]
 }
 
 func (p *c05PipeRsv) build() *schedulingv1alpha1.Reservation {
 	r := p.o.build()
 	r.Labels = map[string]string{"zone": c05Apps[p.zone]}
-	r.Spec.Owners = []schedulingv1alpha1.ReservationOwner{{LabelSelector: &metav1.LabelSelector{MatchLabels: map[string]string{"app": c05Apps[p.ownerApp]}}}}
+	r.Spec.Owners = []schedulingv1alpha1.ReservationOwner{{LabelSelector: p.ownerSelector()}}
 	return r
 }
 
@@ -100,7 +117,7 @@ func TestVerifC05Pipeline(t *testing.T) {
 	rIdx := suit.extenderFactory.KoordinatorSharedInformerFactory().Scheduling().V1alpha1().Reservations().Informer().GetIndexer()
 	pIdx := suit.fw.SharedInformerFactory().Core().V1().Pods().Informer().GetIndexer()
 
-	n := h.N(1500, 30000)
+	n := h.N(1700, 32000)
 	for idx := 0; idx < n; idx++ {
 		r := h.Begin(idx)
 		if r == nil {
@@ -203,6 +220,8 @@ func TestVerifC05Pipeline(t *testing.T) {
 			if r.Chance(1, 4) {
 				p.ownerApp = 3 - majority
 			}
+			p.setExpr(c05DrawExpr(r))
+			h.Tag(fmt.Sprintf("pipe:owner-expr:%d", p.expr))
 			rsvs[u], objs[u] = p, o
 			deliver(u, true)
 		}
@@ -215,6 +234,9 @@ func TestVerifC05Pipeline(t *testing.T) {
 			o.once = r.Chance(2, 5)
 			o.policy = []int{0, 1, 2, 2}[r.Intn(4)]
 			p := &c05PipeRsv{o: o, ownerApp: majority, zone: 1 + r.Intn(2)}
+			if k := c05DrawExpr(r); k != 6 {
+				p.setExpr(k)
+			}
 			rsvs[u], objs[u] = p, o
 			deliver(u, true)
 		}
@@ -364,6 +386,11 @@ func TestVerifC05Pipeline(t *testing.T) {
 						o.term = !o.term
 						h.Tag("pipe:rsv-terminating-flip")
 					}
+				case 3: // the owner selector is edited (update path of the owner parse): expressions added / changed / dropped
+					if r.Bool() {
+						rsvs[u].setExpr(c05DrawExpr(r))
+						h.Tag(fmt.Sprintf("pipe:owner-expr-edited:%d", rsvs[u].expr))
+					}
 				}
 				h.Tag("pipe:op:eupd")
 				deliver(u, false)
@@ -488,6 +515,23 @@ func TestVerifC05Pipeline(t *testing.T) {
 				}
 				kpod := pod.build()
 				kpod.Labels = map[string]string{"app": c05Apps[app]}
+				tierIdx := []int{0, 1, 1, 2, 2}[r.Intn(5)]
+				if nR > 0 && r.Chance(1, 2) { // half of the pods: a tier that satisfies the expressions of one of the reservations, if there is one
+					tp := rsvs[r.Range(1, nR)]
+					for _, ti := range r.Perm(3) {
+						lb := map[string]string{"app": c05Apps[tp.ownerApp]}
+						if ti != 0 {
+							lb["tier"] = c05Tiers[ti]
+						}
+						if _, e, _ := c05EvalSelector(tp.ownerSelector(), lb); e {
+							tierIdx = ti
+							break
+						}
+					}
+				}
+				if tierIdx != 0 {
+					kpod.Labels["tier"] = c05Tiers[tierIdx]
+				}
 				if hasAff {
 					aff := apiext.ReservationAffinity{}
 					if hasName {
@@ -554,7 +598,12 @@ func TestVerifC05Pipeline(t *testing.T) {
 				nc := 0
 				for _, u := range liveU() {
 					p := rsvs[u]
-					ownerOK := p.ownerApp == app
+					// the harness' own reading of the owner selector: all of matchLabels AND all of matchExpressions; invalid selects nobody
+					selL, selE, _ := c05EvalSelector(p.ownerSelector(), kpod.Labels)
+					ownerOK := selL && selE
+					if selL && !selE {
+						h.Tag("pipe:owner-labels-hold-expressions-violated")
+					}
 					nameMatch := hasName && affName == u
 					affOK := !hasAff || hasName || affZone == 0 || affZone == p.zone
 					cands = append(cands, int64(u), int64(vB(ownerOK)), int64(vB(nameMatch)), int64(vB(affOK)))
@@ -663,9 +712,13 @@ func TestVerifC05Pipeline(t *testing.T) {
 						h.Nontrivial()
 						p := rsvs[assumedInto]
 						used, cnt := usedBy(assumedInto)
-						if p.ownerApp != app {
-							fails = append(fails, failT{"C05:pipeline-owner-mismatch", fmt.Sprintf("pod %d (app=%s) was assumed into reservation %d whose only owner entry selects app=%s",
-								pu, c05Apps[app], assumedInto, c05Apps[p.ownerApp])})
+						if selL, selE, inv := c05EvalSelector(p.ownerSelector(), kpod.Labels); !(selL && selE) {
+							fp := "C05:pipeline-owner-mismatch"
+							if selL {
+								fp = "C05:pipeline-owner-mismatch:labels-and-expressions"
+							}
+							fails = append(fails, failT{fp, fmt.Sprintf("pod %d (labels %v) was assumed into reservation %d whose only owner entry selects matchLabels app=%s AND matchExpressions %v (invalid selector: %v)",
+								pu, kpod.Labels, assumedInto, c05Apps[p.ownerApp], p.ownerSelector().MatchExpressions, inv)})
 						}
 						if p.o.once && cnt > 0 {
 							fp := "C05:pipeline-allocate-once-renominated"
@@ -836,7 +889,8 @@ func TestVerifC05Pipeline(t *testing.T) {
 		h.End()
 	}
 	h.Close("one history of 0-3 reservations on one node (allocate-once / re-usable, Default / Aligned / Restricted, owner label a|b, zone label, inner reserved, " +
-		"reserved pod count, restricted options) and 2-8 steps: scheduling cycles of fresh pods through the real Plugin (with / without reservation affinity by selector or " +
+		"reserved pod count, restricted options; 2 of 5 owner selectors carry matchExpressions on the pod's tier label NEXT TO the matchLabels: NotIn / In / Exists / " +
+		"DoesNotExist / two expressions / an invalid operator, edited by update events) and 2-8 steps: scheduling cycles of fresh pods through the real Plugin (with / without reservation affinity by selector or " +
 		"name, owner-matching or not, requests steered to the remainder of a reservation / small / too large, declared-zero and absent keys, node roomy / exactly full / " +
 		"without any room), reservation refresh / Succeeded / allocate-once flips, deletion of bound pods; roll-back stage per cycle: none / Unreserve right after Reserve " +
 		"(also after a failed Reserve) / PreBind then Unreserve (pod lister shows nothing / the unbound pod / the pod on the node) / PreBind only, each roll-back " +
